@@ -224,7 +224,10 @@ impl<'de> Deserialize<'de> for LuaSyntaxId {
 #[derive(Debug, Clone, Copy, PartialEq, Eq, Hash)]
 pub struct LuaAstPtr<T: LuaAstNode> {
     pub syntax_id: LuaSyntaxId,
-    _phantom: PhantomData<T>,
+    // `fn() -> T` instead of `T`: the pointer only stores a `LuaSyntaxId`, so it must not inherit the
+    // thread-affinity of the (Rc-based) syntax node type it names. This keeps `LuaAstPtr<T>`
+    // `Send + Sync` for every `T` without an `unsafe impl`.
+    _phantom: PhantomData<fn() -> T>,
 }
 
 impl<T: LuaAstNode> LuaAstPtr<T> {
@@ -249,5 +252,3 @@ impl<T: LuaAstNode> LuaAstPtr<T> {
     }
 }
 
-unsafe impl<T: LuaAstNode> Send for LuaAstPtr<T> {}
-unsafe impl<T: LuaAstNode> Sync for LuaAstPtr<T> {}
